@@ -3,8 +3,8 @@
 Monitor: the real engine renders one value through every quoting insertion form
 (entity, html_quote alone, html_quote + an option that is the identity on the value,
 fmt=html-quote; three surface syntaxes; alone = single-piece path, between literal text =
-join path, inside if/in bodies) and through plain insertion.  Three counting wrappers sit on
-the three routes by which the engine reaches the real ``html_quote`` (fast path in
+join path, inside if/in bodies) and through plain insertion.  Counting wrappers sit on
+the routes by which the engine reaches the real ``html_quote`` (fast path in
 render_blocks_, modifier table of Var.render, special_formats['html-quote']) so that the
 evidence says which route served which form and whether the fast path decided to skip.
 Oracle: own five-entry replacement table, cross-checked per value against
@@ -164,6 +164,7 @@ class Env:
         self.calls = []          # routes by which html_quote() was entered during one render
         self.post_bad = []       # function-level postcondition failures during one render
         self.acc = {}            # (table, key) -> n, flushed at the end
+        self.per_render = {}     # (form, context, value kind, routes taken) -> n, flushed at the end
         self.post_evals = 0
         self.renders = 0
         self.reported = {}
@@ -201,6 +202,10 @@ class Env:
         if DT_Var.special_formats.get('html-quote') is real:
             DT_Var.special_formats['html-quote'] = make('fmt')
             bound += 1
+        if DT_Var.__dict__.get('html_quote') is real:
+            # not used by Var.render today; a repaired Var.render may call it by this name
+            DT_Var.html_quote = make('var-global')
+            bound += 1
         self.ctx.count('monitor:html_quote references wrapped', bound)
         self.installed = True
 
@@ -224,6 +229,13 @@ class Env:
 
     def flush(self):
         ctx = self.ctx
+        for (form, context, vk0, routes), n in self.per_render.items():
+            ctx.count('oracle:output comparisons', n)
+            ctx.table('html_quote route by form', '%s:%s' % (form, '+'.join(routes) or 'none'), n)
+            ctx.table('renders by form and context', '%s/%s' % (form, context), n)
+            if form in FORMS and FORMS[form][2] == 'fast':
+                ctx.table('fast path decision', '%s:%s' % (vk0, 'quoted' if routes else 'skipped'), n)
+        self.per_render.clear()
         for (table, key), n in self.acc.items():
             if table is None:
                 ctx.count(key, n)
@@ -261,7 +273,7 @@ def applicable(form, text, value):
     return True
 
 
-def check_value(ctx, env, recipe, tenc, forms, contexts, plain=(), only=None):
+def check_value(ctx, env, recipe, tenc, forms, contexts, plain=()):
     """Render one value through forms x contexts; compare with the oracle. Returns #problems."""
     value, text = build_value(recipe)
     desc = (recipe['t'], recipe.get('kind'), recipe.get('enc'), tuple(recipe.get('cps', ())),
@@ -279,6 +291,8 @@ def check_value(ctx, env, recipe, tenc, forms, contexts, plain=(), only=None):
         env.add('bytes encodings (value/template)', '%s/%s' % (recipe['enc'], tenc or 'default'))
     kw = {'x': value, 'y': 1, 'one': [0]}
     calls = env.calls
+    per_render = env.per_render
+    vk0 = vkind.split(':')[0]
     results = []
     problems = 0
     todo = [(f, c, False) for f in forms for c in contexts
@@ -287,8 +301,6 @@ def check_value(ctx, env, recipe, tenc, forms, contexts, plain=(), only=None):
         todo += [(f, c, True) for f in plain for c in contexts
                  if not (c in ('if', 'in') and PLAIN[f][0] != 'html')]
     for form, context, is_plain in todo:
-        if only and (form, context) != only:
-            continue
         if not is_plain and not applicable(form, text, value):
             env.add(None, 'skipped: spacify on a value containing "_"')
             continue
@@ -304,19 +316,15 @@ def check_value(ctx, env, recipe, tenc, forms, contexts, plain=(), only=None):
             report(ctx, env, 'render raised %s: %s' % (type(e).__name__, str(e)[:120]),
                    recipe, tenc, form, context, None, None)
             continue
-        routes = '+'.join(calls) or 'none'
-        env.add('html_quote route by form', '%s:%s' % (form, routes))
-        env.add('renders by form and context', '%s/%s' % (form, context))
+        k = (form, context, vk0, tuple(calls))
+        per_render[k] = per_render.get(k, 0) + 1
         pre, suf = CONTEXTS[context][1:]
         want_inner = text if is_plain else expected
         want = pre + want_inner + suf
-        if not is_plain and path == 'fast':
-            env.add('fast path decision', '%s:%s' % (vkind.split(':')[0], 'quoted' if calls else 'skipped'))
         if env.post_bad and not is_plain:
             problems += 1
-            report(ctx, env, 'html_quote() postcondition: result has a raw special character: %r'
+            report(ctx, env, 'html_quote() postcondition: result is not text in the five-entity escaped form: %r'
                    % (env.post_bad[:2],), recipe, tenc, form, context, None, obs)
-        env.add(None, 'oracle:output comparisons')
         if isinstance(obs, str) and obs == want:
             results.append((form, context, want_inner))
             continue
@@ -330,6 +338,12 @@ def check_value(ctx, env, recipe, tenc, forms, contexts, plain=(), only=None):
                    % (frag, context, short(obs), short(text)), recipe, tenc, form, context, None, obs)
             continue
         mech = classify(path, route, recipe, text, inner, value)
+        if mech:
+            seen = env.reported[mech] = env.reported.get(mech, 0) + 1
+            if seen > ctx.MAX_DETAIL:
+                # the worker keeps MAX_DETAIL full reports per mechanism; further ones are only counted
+                ctx.violation(mech, None, mech=mech)
+                continue
         diag = []
         if inner is None:
             diag.append('literal text around the value damaged or result not text (%s)' % type(obs).__name__)
@@ -350,8 +364,7 @@ def check_value(ctx, env, recipe, tenc, forms, contexts, plain=(), only=None):
 
 
 def short(x, n=60):
-    s = x if isinstance(x, str) else repr(x)
-    s = s.encode('ascii', 'backslashreplace').decode('ascii')
+    s = x.encode('unicode_escape').decode('ascii') if isinstance(x, str) else ascii(x)
     return s if len(s) <= n else s[:n] + '...'
 
 
@@ -517,14 +530,14 @@ def run(ctx, spec):
     # --- part C: non-string values
     for j in range(NOBJECTS[ctx.tier] // n):
         object_case(ctx, env, rng, j + sh)
-    if sh == 0:
-        from DocumentTemplate.DT_HTML import HTML
-        for v in ('<a href="x">it\'s</a> &amp; €', "it's", 'caf\xe9 <b>'.encode('utf-8'), ['a<b']):
-            row = {'value': repr(v)}
-            for f in ('entity', 'hq', 'hq_missing', 'fmt'):
-                row['L[%s]R' % FORMS[f][1]] = HTML('L[%s]R' % FORMS[f][1])(x=v)
-            row['expected inner'] = model_escape(v.decode('utf-8') if isinstance(v, bytes) else str(v))
-            ctx.sample(row)
+    # one real case per shard for the evidence (the driver keeps one sample per shard)
+    fixed = ('<a href="x">it\'s</a> &amp; \u20ac', "it's", 'caf\xe9 <b>'.encode('utf-8'), ['a<b'])
+    v = fixed[sh] if sh < len(fixed) else ''.join(map(chr, rand_text(rng))).encode('utf-8', 'replace').decode('utf-8')
+    row = {'value': repr(v)}
+    for f in ('entity', 'hq', 'hq_missing', 'fmt'):
+        row['L[%s]R' % FORMS[f][1]] = env.template(f, 'wrapped', None)(x=v)
+    row['expected inner'] = model_escape(v.decode('utf-8') if isinstance(v, bytes) else str(v))
+    ctx.sample(row)
     env.flush()
     reach.stop()
     reach.report(ctx)
@@ -551,8 +564,9 @@ def finish(agg):
         seen = [k for k in routes if k.startswith(form + ':')]
         if not seen:
             inc.append('form never rendered: ' + form)
-        elif path == 'full' and not routes.get('%s:%s' % (form, route)):
-            inc.append('full-path form %s never reached html_quote() through the %s route' % (form, route))
+        elif path == 'full' and not (routes.get('%s:%s' % (form, route)) or routes.get('%s:var-global' % form)):
+            inc.append('full-path form %s never reached html_quote() through the %s route (nor through '
+                       'DT_Var.html_quote)' % (form, route))
     if not c.get('oracle:output comparisons'):
         inc.append('no output comparison ran')
     if not c.get('code points evaluated') or not c.get('random strings evaluated') \
